@@ -51,6 +51,9 @@ type c02Case struct {
 	// first signer uses a large RSA key of this many bits (signature sizes around the buffer
 	// boundaries of jwt.Sign: 512 raw bytes are reserved)
 	RSABits int `json:"rsabits,omitempty"`
+	// "" = a FindKeyFunc keyed by kid; "jwk" = goat's own jws.JWKKeyFinder / jwt.JWKKeyFiner on the
+	// (single) signer's verification key
+	Finder string `json:"finder,omitempty"`
 }
 
 var (
@@ -431,7 +434,7 @@ func c02StructHeader(part string, h *jws.Header, w map[string]vf.Wire, checks *[
 		setURL("x5u", "urn:example:certs:leaf-11")
 	case "x5u2":
 		setURL("x5u", "//cdn.example.net/c%C3%A9rt.pem?")
-	case "plain", "", "kid":
+	case "plain", "", "kid", "algboth":
 	default:
 		panic("c02: unknown header set " + part)
 	}
@@ -494,15 +497,30 @@ func c02Exec(c *vf.Ctx, d *vf.Driver, cs c02Case) {
 		}
 		s := c02Signer{alg: a.Name, key: k}
 		palg := a.Name
+		protKid := kid
 		switch set {
 		case "unprot":
 			u := c02BuildHeader("unreg", "", "", false, pub)
 			s.unprot = &u
 			set = "plain"
-		case "algunprot":
+		case "algunprot": // alg ONLY in the unprotected header, next to a protected header {kid}
 			u := c02BuildHeader("plain", a.Name, "", false, pub)
 			s.unprot = &u
 			palg, set = "", "plain"
+		case "algunprot-empty": // … next to an EMPTY protected header (what Sign emits: "e30"); kid unprotected
+			u := c02BuildHeader("plain", a.Name, kid, false, pub)
+			s.unprot = &u
+			palg, set = "", "plain"
+			protKid = ""
+		case "algunprot-typ": // … next to a protected header {typ}
+			u := c02BuildHeader("plain", a.Name, kid, false, pub)
+			s.unprot = &u
+			palg, set = "", "typ"
+			protKid = ""
+		case "algboth": // the same alg in both headers
+			u := c02BuildHeader("plain", a.Name, "", false, pub)
+			s.unprot = &u
+			set = "plain"
 		case "unprot-struct": // structured parameters in the UNPROTECTED header
 			u := c02BuildHeader("x5c2+jwk-p256+jku+typ", "", "", false, pub)
 			s.unprot = &u
@@ -512,7 +530,7 @@ func c02Exec(c *vf.Ctx, d *vf.Driver, cs c02Case) {
 			s.unprot = &u
 			set = "x5c3"
 		}
-		s.prot = c02BuildHeader(set, palg, kid, cs.NB64 != cs.Mismatch, pub)
+		s.prot = c02BuildHeader(set, palg, protKid, cs.NB64 != cs.Mismatch, pub)
 		sk, _ := c01GoatSigningKey(a.Name, false, c01KeyRef{Idx: k.Idx, Variant: "priv"})
 		s.sk = sk
 		signers = append(signers, s)
@@ -521,6 +539,9 @@ func c02Exec(c *vf.Ctx, d *vf.Driver, cs c02Case) {
 			finder.Kids[kid] = c01KeyRef{Idx: k.Idx, Variant: "priv"}
 		}
 		allowed = append(allowed, a.Name)
+	}
+	if cs.Finder == "jwk" { // goat's own key finder on the first signer's verification key
+		finder = c01Finder{Mode: "jwk", Key: finder.Kids["key-0"]}
 	}
 
 	// ---- goat: build and serialise
@@ -616,7 +637,7 @@ func c02Exec(c *vf.Ctx, d *vf.Driver, cs c02Case) {
 	}
 	class := "c02-roundtrip-" + cs.Form
 	switch {
-	case cs.Hdr == "algunprot":
+	case strings.HasPrefix(cs.Hdr, "algunprot"):
 		class = "c02-alg-unprotected-only"
 	case cs.NB64 && cs.Payload == "binary" && cs.Form != "compact":
 		class = "c02-nb64-json-invalid-utf8"
@@ -981,6 +1002,26 @@ func c02Grid(c *vf.Ctx) []c02Case {
 		for _, f := range forms {
 			n++
 			grid = append(grid, c02Case{Alg: a, Form: f.form, NB64: f.nb64, Payload: "ascii", Hdr: "bighdr", KeyN: n, Seed: uint64(31000 + n)})
+		}
+	}
+	// placement of alg × key finder × serialisation: alg in the protected header, ONLY in the
+	// unprotected one (next to an empty / a {kid} / a {typ} protected header), in both; verified
+	// through a FindKeyFunc and through goat's own jws.JWKKeyFinder / jwt.JWKKeyFiner
+	for _, a := range []string{"HS256", "ES256", "EdDSA", "RS256", "PS384", "ES256K", "HS512", "ES512"} {
+		for _, pl := range []string{"plain", "kid", "algunprot", "algunprot-empty", "algunprot-typ", "algboth"} {
+			for _, fd := range []string{"", "jwk"} {
+				for _, f := range forms {
+					unprotNeeded := pl != "plain" && pl != "kid"
+					if unprotNeeded && (f.form == "compact" || f.form == "jwt") {
+						continue
+					}
+					if fd == "jwk" && (f.form == "general2" || f.form == "general4") {
+						continue // one key only
+					}
+					n++
+					grid = append(grid, c02Case{Alg: a, Form: f.form, NB64: f.nb64 && !unprotNeeded, Payload: "ascii", Hdr: pl, KeyN: n, Seed: uint64(32000 + n), Finder: fd})
+				}
+			}
 		}
 	}
 	// probes of two corners of the quantifier (own violation classes)
